@@ -7,6 +7,7 @@ License: 3-clause BSD. (See the COPYRIGHT file)
 
 from __future__ import annotations
 
+import copy
 import os
 import re
 from typing import TYPE_CHECKING, Any, cast
@@ -541,7 +542,15 @@ class Configuration(_Configuration):
         # Add the changes prior to the reload to the neighbor to correct handling of deleted routes
         for neighbor in self.neighbors:
             if neighbor in self._previous_neighbors:
-                self.neighbors[neighbor].previous = self._previous_neighbors[neighbor]
+                previous = self._previous_neighbors[neighbor]
+                if previous.previous is not None:
+                    # the peer has not taken the previous reload into account yet (its session is down, or this
+                    # reload follows at once): what that reload removed is still to be removed, or it stays
+                    # in the Adj-RIB-Out for ever
+                    older, previous = previous.previous, copy.copy(previous)
+                    previous.routes = older.routes + previous.routes
+                    previous.previous = None
+                self.neighbors[neighbor].previous = previous
 
         self._previous_neighbors = {}
         self._cleanup()
